@@ -27,7 +27,17 @@ FS_METHODS = 18
 
 def parallel_tlc(cx, spec, envs, prefix, heap="3g", maxpar=None, timeout=6000):
     """Run one single-worker TLC per env (a chain of states does not parallelise inside TLC)."""
-    maxpar = maxpar or max(2, min(vlib.NCPU - 2, 12))
+    if not maxpar:
+        # every TLC process may grow to its heap limit: fit the parallelism to the memory that is free right now
+        avail_gb = 16.0
+        try:
+            for ln in open("/proc/meminfo"):
+                if ln.startswith("MemAvailable:"):
+                    avail_gb = int(ln.split()[1]) / 1048576.0
+        except OSError:
+            pass
+        gb = float(heap.rstrip("g")) + 1.0
+        maxpar = max(2, min(vlib.NCPU - 2, 12, int(avail_gb * 0.8 / gb)))
     results = [None] * len(envs)
     errors = []
     sem = threading.Semaphore(maxpar)
